@@ -66,11 +66,11 @@ func (conn *Conn) Close() error {
 	if conn.isClosed {
 		return nil
 	}
-	if err := conn.Conn.Close(); err != nil {
-		return err
-	}
+	// The transport releases the socket even when Close reports an error
+	// (e.g. a TLS close_notify that could not be sent): closing it again
+	// would only fail with "use of closed network connection".
 	conn.isClosed = true
-	return nil
+	return conn.Conn.Close()
 }
 
 // SetDatabase sets the selected database number to the connection.
